@@ -19,23 +19,33 @@ func absPath(path string) string {
 	return path
 }
 
-// findProject creates new Project instance by finding a project which the given path belongs to.
-// A project must be a Git repository and have ".github/workflows" directory.
-func findProject(path string) (*Project, error) {
+// findProjectRoot finds the root directory of the project which the given path belongs to. A project
+// must be a Git repository and have ".github/workflows" directory. The nearest such directory is the
+// root. Empty string is returned when no project is found.
+func findProjectRoot(path string) string {
 	d := absPath(path)
 	for {
 		if s, err := os.Stat(filepath.Join(d, ".github", "workflows")); err == nil && s.IsDir() {
 			if _, err := os.Stat(filepath.Join(d, ".git")); err == nil { // Note: .git may be a file
-				return NewProject(d)
+				return d
 			}
 		}
 
 		p := filepath.Dir(d)
 		if p == d {
-			return nil, nil
+			return ""
 		}
 		d = p
 	}
+}
+
+// findProject creates new Project instance by finding a project which the given path belongs to.
+func findProject(path string) (*Project, error) {
+	r := findProjectRoot(path)
+	if r == "" {
+		return nil, nil
+	}
+	return NewProject(r)
 }
 
 // NewProject creates a new instance with a file path to the root directory of the repository.
@@ -98,19 +108,25 @@ func NewProjects() *Projects {
 // At returns the Project instance which the path belongs to. It returns nil if no project is found
 // from the path.
 func (ps *Projects) At(path string) (*Project, error) {
+	// Find the root of the nearest project at first. Returning a known project which knows the path
+	// is not correct when a repository is put in another repository (e.g. Git submodule or vendored
+	// repository). A file of the inner repository would belong to the outer one when the outer one
+	// was found earlier.
+	root := findProjectRoot(path)
+	if root == "" {
+		return nil, nil
+	}
 	for _, p := range ps.known {
-		if p.Knows(path) {
+		if p.root == root {
 			return p, nil
 		}
 	}
 
-	p, err := findProject(path)
+	p, err := NewProject(root)
 	if err != nil {
 		return nil, err
 	}
-	if p != nil {
-		ps.known = append(ps.known, p)
-	}
+	ps.known = append(ps.known, p)
 
 	return p, nil
 }
